@@ -224,8 +224,6 @@ pub fn ci_sorted_unchecked<T>(
 where
     T: PartialOrd + Clone,
 {
-    assert!(quantile > 0. && quantile < 1.);
-
     ci_indices(confidence, sorted.len(), quantile).and_then(|indices| match indices.into() {
         (Some(lo), Some(hi)) => {
             Interval::new(sorted[lo].clone(), sorted[hi].clone()).map_err(|e| e.into())
